@@ -1190,6 +1190,11 @@ def set_zero_order_absorption(model: Model):
         pass
     else:
         _disallow_infusion(model, odes)
+        if odes.find_transit_compartments(statements):
+            # Zero order absorption goes directly into the central compartment
+            model = set_transit_compartments(model, 0)
+            statements = model.statements
+            odes = get_and_check_odes(model)
         depot = odes.find_depot(statements)
 
         dose_comp = odes.dosing_compartments[0]
